@@ -91,6 +91,24 @@ def build(tier, seed):
                 and val(T.Text.cast(b)).upper() == ('TRUE' if b else 'FALSE') and val(F['LEN'](n)) == len(str(n)) and val(F['CONCAT'](n, b)) == str(n) + val(T.Text.cast(b)))
     add('cast[text parameters]', h_text_cast, lambda n, b: -999 <= n <= 999, [(12, True), (-3, False)], 'text parameters accept numbers and booleans by their text form (n in -999..999)', 10)
 
+    NATIVES = [1, True, 0, False, '1', 'True', 1.0]
+
+    def h_history(i: int, j: int) -> bool:
+        # the text / number / boolean form of a native value does not depend on which equal-looking value was converted before
+        i, j = concretize(i, 0, len(NATIVES) - 1), concretize(j, 0, len(NATIVES) - 1)
+        x, y = NATIVES[i], NATIVES[j]
+
+        def forms(v):
+            return (val(T.Text.cast(v)), val(F['LEN'](v)), val(F['CONCAT'](v, 'x')), nval(T.Number.cast(v)), type(T.ExcelType.cast_from_native(v)).__name__)
+        alone = {0: ('1', 1, '1x', 1, 'Number'), 1: ('True', 4, 'Truex', 1, 'Boolean'), 2: ('0', 1, '0x', 0, 'Number'), 3: ('False', 5, 'Falsex', 0, 'Boolean'),
+                 4: ('1', 1, '1x', 1, 'Text'), 5: ('True', 4, 'Truex', None, 'Text'), 6: ('1.0', 3, '1.0x', 1, 'Number')}
+        forms(x)
+        got = forms(y)
+        exp = alone[j]
+        return got[0] == exp[0] and got[1] == exp[1] and got[2] == exp[2] and (exp[3] is None or got[3] == exp[3]) and got[4] == exp[4]
+    add('cast[history independence]', h_history, lambda i, j: 0 <= i < len(NATIVES) and 0 <= j < len(NATIVES), [(0, 1), (1, 0), (3, 2)],
+        f'all ordered pairs of the native values {NATIVES} (forked): converting one does not change the text / number / type form of the next (1 vs TRUE vs "1" vs 1.0 are distinct spellings)', 10)
+
     # ---------------- 2. every registered function, every numeric position, every spelling
     for name in sorted(F):
         if name in EXEMPT or name.startswith('OP_') or name in ('RAND', 'RANDBETWEEN', 'NOW', 'TODAY', 'IRR', 'XIRR', 'VDB', 'SUMIF', 'SUMIFS'):
@@ -172,6 +190,23 @@ def build(tier, seed):
         ev = Evaluator(MD)
         return num_is(ev.evaluate(f'Sheet1!Z{k + 1}'), a + b)
     add('dispatch[case and prefix]', h_dispatch, lambda a, b, k: 0 <= k < len(names), [(1, 2, 0), (3, 4, 4)], f'function name spelt {names} (forked): same function; cell values all ints', 5)
+
+    # every registered name resolves to its own function, with and without the _xlfn. prefix, in upper and lower case
+    REG = sorted(n for n in F if not n.startswith('VERIF'))
+    ns = {n: (lambda idx: (lambda *a: idx))(i) for i, n in enumerate(REG)}
+    rcells = {}
+    for i, n in enumerate(REG):
+        rcells[f'A{i + 1}'] = f'=_xlfn.{n}()'
+        rcells[f'B{i + 1}'] = f'={n.lower()}()'
+        rcells[f'C{i + 1}'] = f'=_XLFN.{n.capitalize()}()'
+    MR = mk(rcells)
+
+    def h_registry(k: int) -> bool:
+        k = concretize(k, 0, len(REG) - 1)
+        ev = Evaluator(MR, ns)
+        return val(ev.evaluate(f'Sheet1!A{k + 1}')) == k and val(ev.evaluate(f'Sheet1!B{k + 1}')) == k and val(ev.evaluate(f'Sheet1!C{k + 1}')) == k
+    add('dispatch[every registered name]', h_registry, lambda k: 0 <= k < len(REG), [(0,), (len(REG) - 1,)],
+        f'each of the {len(REG)} registered names (forked), spelt _xlfn.NAME, name in lower case and _XLFN.Name: resolves to its own function (a namespace of index-returning stand-ins)', 30, timeout=600)
 
     # user-registered function
     @xl.register()
